@@ -3141,6 +3141,13 @@ class LinConstr:
     The LinConstr class creates an array of linear constraints.
     """
 
+    def __bool__(self):
+
+        # "a <= x <= b" would silently keep its second half only
+        raise TypeError('The truth value of a constraint is undefined. '
+                        'Chained comparisons like "a <= x <= b" are not '
+                        'supported: write the two constraints separately.')
+
     def __init__(self, model, linear, const, sense, sign=1):
 
         self.model = model
@@ -3190,6 +3197,13 @@ class LMIConstr:
     constraints.
     """
 
+    def __bool__(self):
+
+        # "a <= x <= b" would silently keep its second half only
+        raise TypeError('The truth value of a constraint is undefined. '
+                        'Chained comparisons like "a <= x <= b" are not '
+                        'supported: write the two constraints separately.')
+
     def __init__(self, model, linear, const, dim):
 
         self.model = model
@@ -3207,6 +3221,13 @@ class CvxConstr:
     """
     The CvxConstr class creates an object of convex constraints.
     """
+
+    def __bool__(self):
+
+        # "a <= x <= b" would silently keep its second half only
+        raise TypeError('The truth value of a constraint is undefined. '
+                        'Chained comparisons like "a <= x <= b" are not '
+                        'supported: write the two constraints separately.')
 
     def __init__(self, model, affine_in, affine_out, multiplier, xtype, params=None):
 
@@ -3230,6 +3251,13 @@ class PWConstr:
     """
     The PWConstr class creates an object of piecewise convex constraints.
     """
+
+    def __bool__(self):
+
+        # "a <= x <= b" would silently keep its second half only
+        raise TypeError('The truth value of a constraint is undefined. '
+                        'Chained comparisons like "a <= x <= b" are not '
+                        'supported: write the two constraints separately.')
 
     def __init__(self, model, pieces, supp_set=None):
 
@@ -3264,6 +3292,13 @@ class Bounds:
     """
     The Bounds class creates an object for upper or lower bounds.
     """
+
+    def __bool__(self):
+
+        # "a <= x <= b" would silently keep its second half only
+        raise TypeError('The truth value of a constraint is undefined. '
+                        'Chained comparisons like "a <= x <= b" are not '
+                        'supported: write the two constraints separately.')
 
     def __init__(self, model, indices, values, btype):
 
@@ -3310,6 +3345,13 @@ class ConeConstr:
     The ConeConstr class creates an object of second-order cone constraints.
     """
 
+    def __bool__(self):
+
+        # "a <= x <= b" would silently keep its second half only
+        raise TypeError('The truth value of a constraint is undefined. '
+                        'Chained comparisons like "a <= x <= b" are not '
+                        'supported: write the two constraints separately.')
+
     def __init__(self, model, left_var, left_index, right_var, right_index):
 
         self.model = model
@@ -3323,6 +3365,13 @@ class ExpConstr:
     """
     The ExpConstr class creates an object of exponential cone constraints.
     """
+
+    def __bool__(self):
+
+        # "a <= x <= b" would silently keep its second half only
+        raise TypeError('The truth value of a constraint is undefined. '
+                        'Chained comparisons like "a <= x <= b" are not '
+                        'supported: write the two constraints separately.')
 
     def __init__(self, model, expr1, expr2, expr3):
         self.model = model
@@ -3347,6 +3396,13 @@ class KLConstr:
     The KLConstr class creates an object of constraint for KL divergence.
     """
 
+    def __bool__(self):
+
+        # "a <= x <= b" would silently keep its second half only
+        raise TypeError('The truth value of a constraint is undefined. '
+                        'Chained comparisons like "a <= x <= b" are not '
+                        'supported: write the two constraints separately.')
+
     def __init__(self, p, phat, r):
         self.model = p.model
         self.p = p
@@ -3369,7 +3425,7 @@ class IPCone:
             raise ValueError('Model mismatch.')
         self.model = x.model
         self.left = x.to_affine()
-        if self.left != 1:
+        if self.left.size != 1:
             raise ValueError('Variable dimension')
         self.right = r.flatten()
         if self.right.size != len(beta):
@@ -3477,6 +3533,13 @@ class RoConstr:
     """
     The Roaffine class creats an object of uncertain affine functions.
     """
+
+    def __bool__(self):
+
+        # "a <= x <= b" would silently keep its second half only
+        raise TypeError('The truth value of a constraint is undefined. '
+                        'Chained comparisons like "a <= x <= b" are not '
+                        'supported: write the two constraints separately.')
 
     def __init__(self, roaffine, sense):
 
